@@ -62,3 +62,15 @@ package types
 //@   ensures[C07.k.rev] r0 == cat(bytelit(g("x/operator/types.BytePrefixForChainIDAndConsKeyToOperator")), kCL(chainID), addr)
 //@ func KeyForOperatorKeyRemovalForChainID
 //@   ensures[C07.k.rem] r0 == cat(bytelit(g("x/operator/types.BytePrefixForOperatorKeyRemovalForChainID")), addr, kCL(chainID))
+
+// C18 (every reachable state exports a genesis that validates): an executed slash is recorded with one entry per pending
+// undelegation and per pool it visited, carrying the amount actually taken - which is zero when the proportion rounds
+// down to nothing. Such an entry is accepted; a missing or negative amount is not.
+//@ func (GenesisState).ValidateSlashStates$1$1
+//@   names _, slashFromUndelegation
+//@   flag pure=Wrapf
+//@   ensures[C18.vss.undel] (err == nil) <==> (!isnil(slashFromUndelegation.Amount) && val(slashFromUndelegation.Amount) >= 0)
+//@ func (GenesisState).ValidateSlashStates$1$3
+//@   names _, slashFromAssetsPool
+//@   flag pure=Wrapf
+//@   ensures[C18.vss.pool] (err == nil) <==> (!isnil(slashFromAssetsPool.Amount) && val(slashFromAssetsPool.Amount) >= 0)
